@@ -182,7 +182,12 @@ def coerce_expression(value: Any) -> NixExpression:
             raise ValueError("Unsupported expression type: float must be finite")
         from nix_manipulator.expressions.float import FloatExpression
 
-        return FloatExpression(value=repr(value))
+        text = repr(value)
+        mantissa, exponent_mark, exponent = text.partition("e")
+        if exponent_mark and "." not in mantissa:
+            # Nix float literals need a fractional part: `1e+16` is not a float.
+            text = f"{mantissa}.0e{exponent}"
+        return FloatExpression(value=text)
     if isinstance(value, list):
         from nix_manipulator.expressions.list import NixList
 
